@@ -349,6 +349,13 @@ def family_int_e2e(check, tier):
         nill = kw.get('nillable', True)
         mino = kw.get('min_occurs', 0)
         vals = int_probe_values(cn, kw, rng, 3 if tier == 'quick' else 12)
+        if tier == 'thorough' and not kw:
+            # exhaustive sweeps that validate the model: every value around the 8-bit types, a
+            # dense sweep around the 16-bit ones (the theorem covers all widths)
+            if cn in ('Integer8', 'UnsignedInteger8'):
+                vals = sorted(set(vals) | set(range(-300, 301)))
+            elif cn in ('Integer16', 'UnsignedInteger16'):
+                vals = sorted(set(vals) | set(range(-33100, -32400)) | set(range(32400, 33100)) | set(range(65200, 65800)))
         if len(vals) > 14 and tier == 'quick':
             vals = sorted(set(vals[:5] + vals[-5:] + rng.sample(vals, 4)))
         for z in vals:
